@@ -55,10 +55,11 @@ def c18_runs(tier):
     else:
         fget('man', 2, 'val', PROGS[0], 3, budget=120)
         fget('man', 0, 'val', PROGS[1], 3, budget=120)
-        fget('man', alts(0, 2), KINDS, alts(*PROGS[:2]), 2, budget=300)  # 16 configurations
+        fget('man', alts(0, 2), KINDS, PROGS[1], 2, budget=300)  # 8 configurations
         fget('man', 0, 'val', alts(*PROGS[2::2]), 2, budget=120)
         fget('man', 2, 'val', alts(*PROGS[3::2]), 2, budget=120)
-        fget('man', alts(0, 2), KINDS, alts(*DROPS), 2, drop=1, budget=200)
+        fget('man', alts(0, 2), KINDS, DROPS[0], 2, drop=1, budget=200)
+        fget('man', 0, alts('val', 'thr'), DROPS[1], 2, drop=1, budget=120)
     fget('man', 2, 'val', '-.-.-', 3, drop=1)
     # (2) every real schedulable x every policy; pools are parked first (placed path).
     #     executions per configuration with one worker: bound 1 ~600, bound 2 ~13 k; FSC bound 2 ~1.5 k, bound 3 ~21 k
@@ -78,8 +79,8 @@ def c18_runs(tier):
         fget('pool', 1, 'val', PROGS[0], 1, n=2, opts=FSC)
         fget('pool', 1, 'val', PROGS[0], 1, n=1, park=0, opts=FSC)
     else:
+        fget('pool', 1, 'val', PROGS[0], 2, n=1, budget=150)
         for sched in ('pool', 'ts', 'cts'):
-            fget(sched, 1, 'val', PROGS[0], 2, n=1, budget=150)
             fget(sched, ALLPOL, 'val', alts(PROGS[1], PROGS[2]), 2, n=1, opts=FSC, budget=150)  # 8 configurations
             fget(sched, ALLPOL, 'val', alts(PROGS[3], PROGS[4]), 1, n=1, budget=120)
             fget(sched, 1, alts('ref', 'void', 'thr'), PROGS[1], 2, n=1, opts=FSC, budget=90)
@@ -99,11 +100,11 @@ def c18_runs(tier):
     fget('man', 2, 'val', PROGS[0], 1, mode='tsan', opts=FSC, budget=90)
     fget('man', 0, 'val', DROPS[0], 0, mode='asan', drop=1, budget=90)
     if not q:
-        fget('man', 0, 'thr', PROGS[1], 1, mode='tsan', budget=200)
+        fget('man', 0, 'thr', PROGS[1], 1, mode='tsan', opts=FSC, budget=200)
         fget('pool', 1, 'thr', PROGS[1], 1, n=1, mode='tsan', opts=FSC, budget=200)
         fget('nt', 1, 'thr', 'r.-.d', 0, mode='asan', drop=1, budget=120)
         fget('cts', 1, 'val', PROGS[0], 0, n=1, mode='asan', opts=FSC, budget=120)
-    return R.runs
+    return sorted(R.runs, key=lambda r: r.mode == 'plain')  # sanitizer legs first: a tier deadline must not cut them
 
 
 reg('C18', level='model_checking', runs=c18_runs, quick_budget_s=300, thorough_budget_s=1800,
@@ -217,7 +218,7 @@ def c19_runs(tier):
         fwhen('mrm', 'g', 0, op='all', form='tup', mode='asan', ord='20', budget=120)
     if not q:
         fthen('man', 'imm', 1, 1, 'b', 3, budget=400)  # ~130 k executions: last, so that a tier deadline cuts only this one
-    return R.runs
+    return sorted(R.runs, key=lambda r: r.mode == 'plain')  # sanitizer legs first: a tier deadline must not cut them
 
 
 reg('C19', level='model_checking', runs=c19_runs, quick_budget_s=300, thorough_budget_s=1800,
@@ -291,7 +292,7 @@ def c20_runs(tier):
         fut('man', 0, 'blocked', 1, mode='tsan', api='until', d=300, by=2, budget=200)
         fut('pool', 1, 'during', 1, mode='tsan', n=1, d=300, api='for', opts=TIMED_FSC, budget=200)
         fut('nt', 0, 'during', 0, mode='asan', api='for', d=300, budget=120)
-    return R.runs
+    return sorted(R.runs, key=lambda r: r.mode == 'plain')  # sanitizer legs first: a tier deadline must not cut them
 
 
 reg('C20', level='model_checking', runs=c20_runs, quick_budget_s=300, thorough_budget_s=1800,
